@@ -354,6 +354,20 @@ def run_val(ident, t, out):
             a, b, c = mixed_mod.mixed_step_memoization(int(t[1]), int(t[2]))
             return "(%d,%s,%s)" % (int(a), canon.i2s(b), canon.i2s(c))
         r = res(f)
+    elif k == "memosweep":
+        def f():
+            lo, hi, s_ = int(t[1]), int(t[2]), int(t[3])
+            cnt, tot, kinds = 0, 0, 0
+            for n_ in range(lo, hi + 1):
+                try:
+                    a, b, c = mixed_mod.mixed_step_memoization(n_, s_)
+                except Exception as e:  # noqa
+                    return "ok=%d sum=%d kinds=%d err=%d:%s" % (cnt, tot, kinds, n_, type(e).__name__)
+                cnt += 1
+                tot += int(b) + int(c)
+                kinds += int(a)
+            return "ok=%d sum=%d kinds=%d err=none" % (cnt, tot, kinds)
+        r = res(f)
     elif k == "tabmemo":
         def f():
             n_, s_ = int(t[1]), int(t[2])
